@@ -138,6 +138,8 @@ type FnCtx struct {
 	specDepth   int
 	qdepth      int
 	keyTypes    map[any]types.Type
+	structMaps  map[heapKey]string // value arrays of maps whose elements are struct values -> key sort
+	structValDone map[string]bool
 }
 
 func (fc *FnCtx) fail(format string, args ...any) {
